@@ -92,6 +92,7 @@ type iteration struct {
 	fieldMappings   map[int]int
 	offsetsCh       chan common.OffsetsBySource
 	errCh           chan error
+	err             error
 }
 
 // CreateTable creates a table based on the given opts.
@@ -500,8 +501,11 @@ func (db *DB) doProcessIterations(iterations []*iteration) {
 			}
 			itMore, err := it.onValue(dims, itVals)
 			if err != nil {
+				// Only this iteration has failed, remember its error and keep
+				// feeding the others.
 				it.t.log.Errorf("Error while iterating: %v", err)
-				return false, err
+				it.err = err
+				itMore = false
 			}
 			if !itMore {
 				// This iteration doesn't want any more data, stop feeding it
@@ -525,7 +529,11 @@ func (db *DB) doProcessIterations(iterations []*iteration) {
 	}
 	for _, it := range iterations {
 		it.offsetsCh <- offsetsBySource
-		it.errCh <- err
+		if it.err != nil {
+			it.errCh <- it.err
+		} else {
+			it.errCh <- err
+		}
 	}
 }
 
